@@ -213,7 +213,7 @@ func isParam(s *Scope, o types.Object) bool {
 	}
 	for _, f := range s.Type.Params.List {
 		for _, nm := range f.Names {
-			if s.Info.ObjectOf(nm) == o {
+			if objOf(s.Info, nm) == o {
 				return true
 			}
 		}
@@ -457,7 +457,7 @@ func ruleSortBeforeWrite(c *Ctx) {
 	}
 	var fp types.Object
 	if s.Type.Params != nil && len(s.Type.Params.List) > 0 && len(s.Type.Params.List[0].Names) > 0 {
-		fp = s.Info.ObjectOf(s.Type.Params.List[0].Names[0])
+		fp = objOf(s.Info, s.Type.Params.List[0].Names[0])
 	}
 	var sortedObj types.Object
 	sorted := func(sub, top ast.Node) bool {
